@@ -352,8 +352,11 @@ def main() -> int:
         "wall_s": round(time.time() - t0, 2),
         "violations": n_viol,
     }
-    os.makedirs(os.path.join(ROOT, "evidence"), exist_ok=True)
-    json.dump(ev, open(os.path.join(ROOT, "evidence", f"{prop}.json"), "w"), indent=1, default=str)
+    # evidence/<id>.json describes a run on the tree as it is; runs against a deliberately changed tree
+    # (seeded sweep, false-alarm test) write theirs elsewhere so that they cannot be committed by mistake
+    ev_dir = os.environ.get("VERIF_EVIDENCE_DIR") or os.path.join(ROOT, "evidence")
+    os.makedirs(ev_dir, exist_ok=True)
+    json.dump(ev, open(os.path.join(ev_dir, f"{prop}.json"), "w"), indent=1, default=str)
 
     for ln in out_lines:
         print(ln)
